@@ -197,6 +197,8 @@ impl Driver {
         } = self;
         let need_add = !registry.contains_key(&arg.fd);
         let queue = registry.entry(arg.fd).or_default();
+        #[cfg(compio_verif)]
+        compio_log::verif::point("poll.submit", key.as_raw() as u64, arg.fd as u64);
         let token = queue.push_back_interest(key, arg.interest);
         let event = queue.event();
         let res = if need_add {
@@ -261,6 +263,8 @@ impl Driver {
 
     /// Remove one interest from the queue, and emit a cancelled entry.
     fn cancel_one(&mut self, key: ErasedKey, fd: RawFd) -> Option<Entry> {
+        #[cfg(compio_verif)]
+        compio_log::verif::point("poll.cancel", key.as_raw() as u64, fd as u64);
         self.remove_one(&key, fd)
             .map_or(None, |_| Some(Entry::new_cancelled(key)))
     }
@@ -372,15 +376,23 @@ impl Driver {
     fn push_blocking(&mut self, key: ErasedKey) {
         let waker = self.waker();
         let completed = self.completed_tx.clone();
+        #[cfg(compio_verif)]
+        let verif_id = key.as_raw() as u64;
+        #[cfg(compio_verif)]
+        compio_log::verif::point("blocking.dispatch", verif_id, 0);
         // SAFETY: we're submitting into the driver, so it's safe to freeze here.
         let mut key = unsafe { key.freeze() };
 
         let mut closure = move || {
+            #[cfg(compio_verif)]
+            compio_log::verif::point("blocking.start", verif_id, 0);
             let operate = || match key.as_mut().carrier.operate() {
                 Poll::Pending => unreachable!("this operation is not non-blocking"),
                 Poll::Ready(res) => res,
             };
             let res = catch_unwind_io(AssertUnwindSafe(operate));
+            #[cfg(compio_verif)]
+            compio_log::verif::point("blocking.done", verif_id, 0);
             let _ = completed.send(Entry::new(key.into_inner(), res));
             waker.wake();
         };
@@ -409,6 +421,11 @@ impl Driver {
         let queue = self.get_queue(fd);
 
         if let Some((key, _)) = queue.pop_interest(&event)
+            && {
+                #[cfg(compio_verif)]
+                compio_log::verif::point("poll.pop", key.as_raw() as u64, fd as u64);
+                true
+            }
             && let mut op = key.borrow()
             && op.extra_mut().as_poll_mut().handle_event(fd)
         {
@@ -468,6 +485,8 @@ impl Driver {
         self.with_events(|this, events| {
             for event in events.iter() {
                 trace!("receive {} for {:?}", event.key, event);
+                #[cfg(compio_verif)]
+                compio_log::verif::point("poll.event", event.key as u64, 0);
                 // SAFETY: user_data is promised to be valid.
                 let key = unsafe { BorrowedKey::from_raw(event.key) };
                 let mut op = key.borrow();
